@@ -87,6 +87,8 @@ inductive Resp where
   | external (final : Spec)
   | missing
   | error
+  /-- the loader rejects the content for the checksum it was given -/
+  | checksumError
   deriving DecidableEq, Repr, Inhabited
 
 inductive SpecKind where
@@ -102,9 +104,27 @@ structure World where
   maxRedirects : Nat
   /-- lockfile: known checksums of remote specifiers (interned) -/
   lockRemote : List (Spec × Nat)
+  /-- hash (interned) of the bytes the loader serves for an entry from its cache … -/
+  hashUse : List (Spec × Nat) := []
+  /-- … and when bypassing the cache (`CacheSetting::Reload`) -/
+  hashReload : List (Spec × Nat) := []
+  /-- a `Locker` is configured -/
+  hasLocker : Bool := false
+  /-- specifiers with scheme http / https -/
+  remote : List Spec := []
   deriving Repr, Inhabited
 
 def World.respOf (w : World) (s : Spec) : Resp := (w.resp.lookup s).getD .missing
+/-- the loader verifies the checksum it is given: module content whose hash differs is rejected -/
+def World.answer (w : World) (s : Spec) (checksum : Option Nat) (reload : Bool) : Resp :=
+  match w.respOf s with
+  | .module f =>
+    match checksum with
+    | some c =>
+      if (if reload then w.hashReload.lookup s else w.hashUse.lookup s) == some c then .module f
+      else .checksumError
+    | none => .module f
+  | r => r
 def World.contentOf (w : World) (s : Spec) : Content := (w.content.lookup s).getD default
 def World.kindOf (w : World) (s : Spec) : SpecKind := if w.nodeSpecs.contains s then .node else .url
 
@@ -175,9 +195,9 @@ structure St where
   inDyn : Bool := false
   resolvedRoots : List Spec := []
   log : List LoadCall := []
-  /-- lockfile writes `set_remote_checksum(specifier)` in order (specifier only; the value is the
-  sha-256 of the bytes used, compared on the implementation side) -/
-  lockWrites : List Spec := []
+  /-- lockfile writes `set_remote_checksum(specifier, checksum)` in order (checksums are interned
+  hashes of the bytes used) -/
+  lockWrites : List (Spec × Nat) := []
   deriving Repr, Inhabited
 
 /-- map insert: replace in place or append (`BTreeMap::insert` / `IndexMap::insert`) -/
@@ -252,13 +272,17 @@ where
        else .wasm)
     else .err .unsupportedMedia range
 
+/-- `locker.get_remote_checksum`: the lockfile entry, or a checksum recorded earlier in this build -/
+def knownChecksum (w : World) (st : St) (spec : Spec) : Option Nat :=
+  if w.hasLocker then (w.lockRemote.lookup spec).or (st.lockWrites.lookup spec) else none
+
 /-- `load_pending_module`: mark pending and queue the request -/
 def loadPendingModule (w : World) (st : St) (lo : LoadOpts) (count : Nat) (spec : Spec) : St :=
   let st := st.setSlot spec (.pending lo.isAsset)
   { st with pending := st.pending ++ [{
       spec := spec, count := count, range := lo.range, spRef := lo.spRef, isAsset := lo.isAsset,
       inDyn := lo.inDyn, isRoot := lo.isRoot, attr := lo.attr,
-      checksum := w.lockRemote.lookup spec }] }
+      checksum := knownChecksum w st spec }] }
 
 /-- what `load_with_redirect_count` decides before anything is queued -/
 inductive LoadDecision where
@@ -443,33 +467,65 @@ def logCall (st : St) (r : Req) (reload : Bool) : St :=
   { st with log := st.log ++ [{ spec := r.spec, ensureCached := r.isAsset, reload := reload,
                                 checksum := r.checksum, inDyn := r.inDyn }] }
 
-def tryLoad (w : World) (o : Opts) (r : Req) : Outcome :=
+/-- the answer to a successful (non-asset) module load -/
+def moduleOutcome (w : World) (o : Opts) (r : Req) (f : Spec) : Outcome :=
+  let c := w.contentOf r.spec
+  match classify o c r.attr r.range r.spRef r.isRoot r.inDyn with
+  | .err k ref => .err { kind := k, spec := f, referrer := ref }
+  | cls => .module f cls
+
+/-- `try_load`; the boolean says whether the cache-bypassing retry was made -/
+def tryLoad' (w : World) (o : Opts) (r : Req) : Outcome × Bool :=
   let handleRedirect (to : Spec) : Outcome :=
     if r.checksum.isSome then .err { kind := .checksumRedirect, spec := r.spec, referrer := r.range }
     else if r.count ≥ w.maxRedirects || to == r.spec then
       .err { kind := .tooManyRedirects, spec := r.spec, referrer := r.range }
     else .redirect to
-  match w.respOf r.spec with
-  | .redirect to => handleRedirect to
-  | .missing => .err { kind := .missing, spec := r.spec, referrer := r.range }
-  | .error => .err { kind := .loader, spec := r.spec, referrer := r.range }
-  | .external f => if r.isAsset then .external r.spec true else .external f false
-  | .module f =>
-    if r.isAsset then .external r.spec true
-    else
-      let c := w.contentOf r.spec
-      match classify o c r.attr r.range r.spRef r.isRoot r.inDyn with
-      | .err k ref => .err { kind := k, spec := f, referrer := ref }
-      | cls => .module f cls
+  match w.answer r.spec r.checksum false with
+  | .redirect to => (handleRedirect to, false)
+  | .missing => (.err { kind := .missing, spec := r.spec, referrer := r.range }, false)
+  | .error => (.err { kind := .loader, spec := r.spec, referrer := r.range }, false)
+  | .external f => (if r.isAsset then .external r.spec true else .external f false, false)
+  | .module f => (if r.isAsset then .external r.spec true else moduleOutcome w o r f, false)
+  | .checksumError =>
+    -- "attempt to cache bust because the remote server might have changed": one retry
+    let integrity : Outcome := .err { kind := .checksum, spec := r.spec, referrer := r.range }
+    match w.answer r.spec r.checksum true with
+    | .module f => (if r.isAsset then .external r.spec true else moduleOutcome w o r f, true)
+    | .external _ => (if r.isAsset then .external r.spec true else integrity, true)
+    | _ => (integrity, true)
+
+def tryLoad (w : World) (o : Opts) (r : Req) : Outcome := (tryLoad' w o r).1
 
 /-- `if is_root { self.resolved_roots.insert(specifier) }` -/
 def markRoot (st : St) (isRoot : Bool) (s : Spec) : St :=
   if isRoot then st.addResolvedRoot s else st
 
-/-- consume the head of `pending` (one iteration of the `resolve_pending` loop body) -/
-def stepPending (w : World) (o : Opts) (r : Req) (st : St) : St :=
+def isDeclaration : MediaType → Bool
+  | .Dts | .Dmts | .Dcts => true
+  | _ => false
+
+def Class.mediaType : Class → MediaType
+  | .js mt => mt
+  | .json => .Json
+  | .wasm => .Wasm
+  | .err .. => .Unknown
+
+/-- the lockfile write of `visit`: a newly seen remote non-declaration module gets the checksum
+of the bytes used recorded, unless the lockfile already has an entry for it -/
+def recordChecksum (w : World) (cls : Class) (f : Spec) (hash : Option Nat) (st : St) : St :=
+  if w.hasLocker && !isDeclaration cls.mediaType && w.remote.contains f
+      && (w.lockRemote.lookup f).isNone && (st.lockWrites.lookup f).isNone then
+    { st with lockWrites := st.lockWrites ++ [(f, hash.getD 0)] }
+  else st
+
+/-- the loader calls of one request: the load itself and, after a checksum failure, one retry -/
+def logRequest (w : World) (o : Opts) (r : Req) (st : St) : St :=
   let st := logCall st r false
-  match tryLoad w o r with
+  if (tryLoad' w o r).2 then logCall st r true else st
+
+/-- what `resolve_pending` does with the outcome of a request -/
+def applyOutcome (w : World) (o : Opts) (r : Req) (st : St) : Outcome → St
   | .err e =>
     let st := checkSpecifier st r.spec e.spec
     st.setSlot e.spec (.err e)
@@ -485,9 +541,14 @@ def stepPending (w : World) (o : Opts) (r : Req) (st : St) : St :=
       { spec := to, range := r.range, spRef := r.spRef, isAsset := r.isAsset, inDyn := r.inDyn,
         isRoot := r.isRoot, attr := r.attr } st
   | .module f cls =>
-    let st := markRoot (checkSpecifier st r.spec f) r.isRoot f
+    let hash := if (tryLoad' w o r).2 then w.hashReload.lookup r.spec else w.hashUse.lookup r.spec
+    let st := recordChecksum w cls f hash (markRoot (checkSpecifier st r.spec f) r.isRoot f)
     let v := visitModule w o cls (w.contentOf r.spec) st
     v.2.setSlot f v.1
+
+/-- consume the head of `pending` (one iteration of the `resolve_pending` loop body) -/
+def stepPending (w : World) (o : Opts) (r : Req) (st : St) : St :=
+  applyOutcome w o r (logRequest w o r st) (tryLoad w o r)
 
 /-- the drain phases run whenever `pending` is empty -/
 def drain (w : World) (o : Opts) (st : St) : St :=
